@@ -149,6 +149,28 @@ def _validate_address_code(node: vy_ast.Attribute, value_type: VyperType) -> Non
             )
 
 
+def _validate_unbounded_bytes_access(node: vy_ast.Attribute, value_type: VyperType) -> None:
+    # `msg.data` and `<address>.code` have no length bound. they are not
+    # materialized, only the builtins which read them in place accept them
+    # as an argument.
+    is_msg_data = node.attr == "data" and node.get("value.id") == "msg"
+    is_code = isinstance(value_type, AddressT) and node.attr == "code"
+    if not (is_msg_data or is_code):
+        return
+
+    allowed = ("slice", "len", "raw_call") if is_msg_data else ("slice", "len")
+    parent = node.get_ancestor()
+    if not isinstance(parent, vy_ast.Call) or node not in parent.args:
+        return
+    if isinstance(parent.func, vy_ast.Name) and parent.func.id in allowed:
+        return
+
+    allowed_str = ", ".join(f"`{name}()`" for name in allowed if name != "len" or is_msg_data)
+    raise StructureException(
+        f"`{node.node_source_code}` can only be used as an argument of {allowed_str}", node
+    )
+
+
 def _validate_msg_value_access(node: vy_ast.Attribute) -> None:
     if isinstance(node.value, vy_ast.Name) and node.attr == "value" and node.value.id == "msg":
         raise NonPayableViolation("msg.value is not allowed in non-payable functions", node)
@@ -885,6 +907,7 @@ class ExprVisitor(VyperNodeVisitorBase):
         value_type = get_exact_type_from_node(node.value)
 
         _validate_address_code(node, value_type)
+        _validate_unbounded_bytes_access(node, value_type)
 
         self.visit(node.value, value_type)
 
